@@ -16,6 +16,7 @@ QUICK = [
     ("1,5,2", 0, 0), ("1,2,6,1", 0, 0), ("1,6,2,3", 2, 0), ("1,8,2,9,3", 0, 0), ("1,10,2,3", 0, 0),
     ("1,2,3", 0, 2), ("1,2,3,4", 0, 2), ("1,2,3", 1, 2),
     ("1,2,6", 0, 3), ("1,10,2,6,1", 0, 3), ("1,2,6", 1, 3), ("1,2,6,1", 2, 3),   # pill while earlier messages are still being batched
+    ("12,10,1", 0, 0), ("12,10,1", 1, 0), ("12,1,2", 2, 0), ("1,12,10,2", 1, 0),     # a low-priority event held back without batching
     ("1,10,2,10,3", 1, 3), ("1,2,6,1", 1, 0), ("3,3,11,11", 0, 4), ("3,11,3", 0, 3), ("1,11,2", 1, 3),
 ]
 THOROUGH = QUICK + [
@@ -26,6 +27,7 @@ THOROUGH = QUICK + [
 ]
 
 
+SELFPILL = [("1,2,1", 0, 0), ("1,2,3", 0, 2), ("3,1,2,4", 0, 0)]
 EXTRA = [  # (script, mode, batch, tb, cap)
     ("1,2,6,1", 0, 0, 2, 6), ("1,2,6,1", 1, 0, 2, 6), ("1,6,2", 0, 0, 1, 6),      # pill for a recipient without tokens
     ("1,2,3", 0, 0, 0, 2), ("1,2,3,4", 0, 0, 0, 2), ("3,1,2", 0, 2, 0, 1),        # more messages than the mailbox holds
@@ -40,6 +42,11 @@ def jobs(tier):
                                                             "VF_LOGN": 8, "VF_PIPE_MAX": 6},
                          symbolic=["errno left by handlers (int)", "quit code (uint8)"],
                          bounds="script %s, mode %d, batch %d, bucket %d, pipe capacity %d" % (sc, mode, batch, tb, cap), unwind=14))
+    for sc, mode, batch in SELFPILL:
+        name = "C08.selfpill.s%s.m%d.b%d" % (sc.replace(",", "_"), mode, batch)
+        js.append(l2_job(name, "l2/c08_order.c", defines={"SCRIPT": "{%s}" % sc, "MODE": mode, "BATCH": batch, "VF_LOGN": 8, "VF_PIPE_MAX": 6, "SELFPILL": None},
+                         symbolic=["errno left by handlers (int)", "quit code (uint8)"],
+                         bounds="script %s, batch %d, the recipient pills itself while handling its first message" % (sc, batch), unwind=14))
     for sc, mode, batch in (QUICK if tier == "quick" else THOROUGH):
         name = "C08.s%s.m%d.b%d" % (sc.replace(",", "_"), mode, batch)
         js.append(l2_job(name, "l2/c08_order.c", defines={"SCRIPT": "{%s}" % sc, "MODE": mode, "BATCH": batch, "VF_LOGN": 8, "VF_PIPE_MAX": 6},
